@@ -32,6 +32,11 @@ def cases(rng, tier):
             yield rvgen.wrap_case(rng, mode, trace=8, dspec=d, suite="sim-dcache-prog")
         else:
             yield rvgen.sim_case(rng, mode, hazard=True, opts={"aligned": True}, trace=8, run=500, dprob=1.0, iprob=0.0, suite="sim-dcache-prog")
+    for prog, regs in rvgen.store_hit_programs():          # store hits / misses of every width and lane, read back before and after displacement
+        for mode in ("single", "five"):
+            for d in ("wb,lru,0,0,1,0", "wb,plru,1,1,2,3", "wt,lru,0,1,2,0", "wt,lru,1,0,1,2"):
+                lines = rvgen.header(mode, True, d, "-", prog, regs, [(rvgen.DATA + i, 0x11 * (i + 1)) for i in range(4)]) + ["sim.snap", "sim.run 200", "sim.snap"]
+                yield Case("sim-dcache-prog", lines, None, {"mode": mode, "hazard": True, "prog": prog, "regs": regs, "pokes": [], "d": d, "i": "-"})
     # the F6 corner: a block that starts below the data base
     for bb in ((12, 13) if tier == "quick" else (11, 12, 13, 14)):
         for ty in ("wt", "wb"):
